@@ -55,6 +55,51 @@ Proof. intros r ops r' ops'. exact (encode_injective _ r ops r' ops' C01_wf_nv).
 Theorem C01_unique_reids : unique_decoding gen_reids.
 Proof. intros r ops r' ops'. exact (encode_injective _ r ops r' ops' C01_wf_reids). Qed.
 
+(* (f) consequences at subroutine level, for subroutines of any length:
+   two different in-range subroutines never share a byte string (the encoder is
+   injective, so the decoder's answer is the only possible one), and a byte string
+   produced from classes that two flavours share decodes to the same subroutine
+   under either flavour (the core instructions mean the same on every flavour). *)
+Definition sub_injective (t : list row) : Prop :=
+  forall s s' : sub,
+    Forall (fun c => In (fst c) t) (s_body s) -> Forall (fun c => In (fst c) t) (s_body s') ->
+    sub_in_range gen_header s = true -> sub_in_range gen_header s' = true ->
+    encode_sub gen_header s = encode_sub gen_header s' -> s = s'.
+
+Lemma sub_injective_of_roundtrip t : roundtrip t -> sub_injective t.
+Proof.
+  intros R s s' H1 H1' H2 H2' E.
+  pose proof (R s H1 H2) as D. pose proof (R s' H1' H2') as D'.
+  rewrite E in D. rewrite D in D'. now inversion D'.
+Qed.
+
+Theorem C01_sub_injective_vanilla : sub_injective gen_vanilla.
+Proof. exact (sub_injective_of_roundtrip _ C01_roundtrip_vanilla). Qed.
+Theorem C01_sub_injective_nv : sub_injective gen_nv.
+Proof. exact (sub_injective_of_roundtrip _ C01_roundtrip_nv). Qed.
+Theorem C01_sub_injective_reids : sub_injective gen_reids.
+Proof. exact (sub_injective_of_roundtrip _ C01_roundtrip_reids). Qed.
+
+Definition shared_classes_agree (t t' : list row) : Prop :=
+  forall s : sub,
+    Forall (fun c => In (fst c) t /\ In (fst c) t') (s_body s) ->
+    sub_in_range gen_header s = true ->
+    decode_sub gen_header t (encode_sub gen_header s) = Some s /\
+    decode_sub gen_header t' (encode_sub gen_header s) = Some s.
+
+Lemma shared_of_roundtrip t t' : roundtrip t -> roundtrip t' -> shared_classes_agree t t'.
+Proof.
+  intros R R' s H1 H2. split; [apply R | apply R']; auto;
+    (eapply Forall_impl; [|exact H1]); cbv beta; intros a [Ha Ha']; assumption.
+Qed.
+
+Theorem C01_shared_vanilla_nv : shared_classes_agree gen_vanilla gen_nv.
+Proof. exact (shared_of_roundtrip _ _ C01_roundtrip_vanilla C01_roundtrip_nv). Qed.
+Theorem C01_shared_vanilla_reids : shared_classes_agree gen_vanilla gen_reids.
+Proof. exact (shared_of_roundtrip _ _ C01_roundtrip_vanilla C01_roundtrip_reids). Qed.
+Theorem C01_shared_nv_reids : shared_classes_agree gen_nv gen_reids.
+Proof. exact (shared_of_roundtrip _ _ C01_roundtrip_nv C01_roundtrip_reids). Qed.
+
 (* non-vacuity: a concrete subroutine with boundary operands meets the
    hypotheses and round-trips by computation *)
 Example C01_nonvacuous :
@@ -71,6 +116,15 @@ Example C01_nonvacuous :
   | Some s' => Nat.eqb (List.length (s_body s')) (List.length body) | None => false end = true.
 Proof. vm_compute. reflexivity. Qed.
 
+(* non-vacuity of (f): the flavours do share classes (same python class name and
+   opcode in both regenerated tables) -- at least the 25 core instructions *)
+Example C01_shared_nonvacuous :
+  let shared t t' := filter (fun r => existsb (fun r' => String.eqb (r_name r) (r_name r') && (r_op r =? r_op r')) t') t in
+  (25 <=? Z.of_nat (List.length (shared gen_vanilla gen_nv))) &&
+  (25 <=? Z.of_nat (List.length (shared gen_vanilla gen_reids))) &&
+  (25 <=? Z.of_nat (List.length (shared gen_nv gen_reids))) = true.
+Proof. vm_compute. reflexivity. Qed.
+
 Print Assumptions C01_roundtrip_vanilla.
 Print Assumptions C01_roundtrip_nv.
 Print Assumptions C01_roundtrip_reids.
@@ -78,3 +132,9 @@ Print Assumptions C01_unique_vanilla.
 Print Assumptions C01_unique_nv.
 Print Assumptions C01_unique_reids.
 Print Assumptions C01_maps_agree.
+Print Assumptions C01_sub_injective_vanilla.
+Print Assumptions C01_sub_injective_nv.
+Print Assumptions C01_sub_injective_reids.
+Print Assumptions C01_shared_vanilla_nv.
+Print Assumptions C01_shared_vanilla_reids.
+Print Assumptions C01_shared_nv_reids.
